@@ -89,8 +89,12 @@ def run(R, tier, seed):
                       "and on success has passed exactly the announced payload slice to Message::decode; Codec::write_message writes COPA|LE len|type|1|0 0 followed by exactly "
                       "the encoded payload iff it is encodable and <= 16 MiB",
                       "NOT covered: bincode's own payload encoding/decoding of Message/Signature/Delta (round trip of field values, behaviour of Message::decode on "
-                      "arbitrary bytes), and the CLI readers (tokio file I/O)"]
+                      "arbitrary bytes)",
+                      "decided (E1, CLI readers): run_delta / run_patch from MIR with the file decoding (bincode = contract) to ANY value - no decoded block size or other "
+                      "field value makes `copia delta` / `copia patch` panic; tokio file operations are recorded effects with arbitrary outcomes; "
+                      "AsyncCopiaSync::with_block_size is its library contract (assert read from the source), the engine calls are summaries (decided under C01/C05)"]
     run_framing(R, tier, seed)
+    run_cli(R, tier, seed, "C20")
     fns = ["FrameHeader::decode", "FrameHeader::encode", "FrameHeader::validate", "FrameHeader::new", "MessageType::from_u8"]
     specs = [
         dict(h="header::c20_decode_accepts_exactly_valid_headers", bound="all 2^96 twelve-byte buffers", functions=fns, witness=header_witness(R)),
@@ -107,8 +111,22 @@ def run(R, tier, seed):
     kanilib.run_harnesses(R, "C20", "lib", specs, timeout_s=900 if tier == "quick" else 2400, extra=extra)
 
 
+def run_cli(R, tier, seed, pid):
+    from mirsmt.prove import Prover
+    from . import clilib
+    ctx = clilib.Ctx()
+    pr = Prover(R, tier)
+    for what in ("delta", "patch"):
+        clilib.reader_obligation(ctx, R, pr, pid, what)
+    clilib.native_validation(R, pid)
+
+
 def replay(path):
     case = json.load(open(path))["case"]
+    if case.get("fn") == "cli_hostile_file":
+        from . import clilib
+        clilib.replay_case(case)
+        return 0
     case = {k: v for k, v in case.items() if k not in ("observed", "expected")}
     print(json.dumps(native.run_both(case), indent=1))
     return 0
